@@ -1261,6 +1261,45 @@ def run_c14(ctx):
                 ctx["violations"].append((f"result of analysing one contract differs under '{vname}' (fields {diff[:4]})",
                                           {"kind": "history-dependence", "program": text, "variant": vname, "env": env}))
                 break
+    # several contracts inside ONE Tealer object (as in group mode), in two orders, detectors run twice: every contract's
+    # paths must equal the paths of the contract analysed alone
+    ok_ids = [rid for kind, rid, text, _ in reqs if isinstance(base[rid].get("paths"), dict) and all(isinstance(v, list) for v in base[rid]["paths"].values())]
+    text_of = {rid: text for kind, rid, text, _ in reqs}
+    multi = []
+    adv_ids = [rid for rid in ok_ids if int(rid[1:]) >= n][:80]   # adversarial + regression programs: same shapes, different reads
+    groups_ = [adv_ids[k:k + 2] for k in range(0, len(adv_ids) - 1)] + [adv_ids[k:k + 3] for k in range(0, len(adv_ids) - 2, 5)]
+    for k in range(12 if ctx["tier"] == "quick" else 120):
+        groups_.append(rng.sample(ok_ids, min(len(ok_ids), rng.choice([2, 2, 3]))))
+    for ids in groups_:
+        for order in (ids, list(reversed(ids))):
+            multi.append((order, ("multi", f"m{len(multi)}", "\n@@----\n".join(text_of[r] for r in order), [])))
+    got, _, _ = corr.run_cmd([corr.PY, corr.IMPL], corr.make_stream([r for _, r in multi]), env={"PYTHONHASHSEED": "11"})
+    nmulti_err = 0
+    for order, (_, mid, _, _) in multi:
+        ncmp += 1
+        res = got.get(mid, {})
+        if "err" in res or not res:
+            nmulti_err += 1
+            continue
+        for det, runs in res.items():
+            bad = None
+            for run in runs:
+                for rid, ps in zip(order, run):
+                    if ps != base[rid]["paths"].get(det):
+                        bad = (rid, ps, base[rid]["paths"].get(det))
+                        break
+                if bad:
+                    break
+            if bad:
+                ctx["violations"].append((f"{det}: a contract analysed together with {len(order) - 1} other contract(s) in one Tealer object reports paths {bad[1]}, analysed alone {bad[2]}",
+                                          {"kind": "cross-contract-state", "programs": [text_of[r] for r in order], "detector": det, "differing_program": text_of[bad[0]]}))
+                break
+        if ctx["violations"]:
+            break
+    cov["multi_contract_groups"] = len(multi)
+    cov["multi_contract_groups_skipped_on_error"] = nmulti_err
+    if multi and nmulti_err > len(multi) // 2:
+        ctx["broken"].append(f"multi-contract harness: {nmulti_err} of {len(multi)} groups could not be analysed ({str(next(iter(got.values()), ''))[:200]})")
     # JSON bytes of the CLI under different hash seeds
     sample = rng.sample(progs, 6 if ctx["tier"] == "quick" else 40)
     outs = par_map(lambda t: [cli.full_run(t, hashseed=hs, printers=False)["json_raw"] for hs in ("0", "1", "31337")], sample)
@@ -1319,8 +1358,9 @@ def rewrite_program(rng, text, kind):
                 sp = rng.choice([str(v), hex(v), ("0" + oct(v)[2:]) if v > 0 else "0"])
                 op = rng.choice(["int", "pushint"])
                 out.append(f"{op} {sp}")
-            elif len(t) == 2 and t[0] == "int" and t[1] in avm_names():
-                out.append(f"int {avm_names()[t[1]]}") if rng.random() < 0.5 else out.append(l)
+            elif len(t) == 2 and t[0] in ("int", "pushint") and t[1] in avm_names():
+                # a named constant: by word or by number, pushed with int or with pushint
+                out.append(rng.choice([f"int {t[1]}", f"pushint {t[1]}", f"int {avm_names()[t[1]]}", f"pushint {avm_names()[t[1]]}"]))
             else:
                 out.append(l)
         return "\n".join(out), "same"
